@@ -824,3 +824,33 @@ def m_replicate_objects(spec, rng):
 
 MUTATORS += [('same-name-kinds', m_same_name_kinds), ('replicate-objects', m_replicate_objects),
              ('fonts-differ', m_fonts_differ), ('fonts-styles-only', m_fonts_styles_only)]
+
+
+def m_object_own_files(spec, rng):
+    """what an office suite puts below an object folder besides content.xml/styles.xml: the object's OWN meta.xml and settings.xml
+    (when it has none yet), a configuration folder with a file, a picture folder, files named like top-level members.  save() writes
+    meta.xml for the top document only, so an object's meta.xml is one of the "other files listed in the manifest"."""
+    man = list(spec['manifest']); mem = list(spec['members'])
+    have = set(p for p, _ in man); names = set(n for n, _ in mem)
+    folders = [p for p, mt in man if p and re.match(u'^(Object \\d+/)+$', p)]
+    if not folders:
+        return None
+    M = (b'<?xml version="1.0" encoding="UTF-8"?>\n<office:document-meta xmlns:office="urn:oasis:names:tc:opendocument:xmlns:office:1.0" '
+         b'xmlns:meta="urn:oasis:names:tc:opendocument:xmlns:meta:1.0" xmlns:dc="http://purl.org/dc/elements/1.1/" office:version="1.2">'
+         b'<office:meta><meta:generator>Other/9.9</meta:generator><dc:title>object &amp; title</dc:title></office:meta></office:document-meta>')
+    for f in folders:
+        extra = [(f + u'meta.xml', u'text/xml', M),
+                 (f + u'Configurations2/', u'application/vnd.sun.xml.ui.configuration', None),
+                 (f + u'Configurations2/accelerator/current.xml', u'', b''),
+                 (f + u'own.bin', u'application/octet-stream', bytes(bytearray(rng.randrange(256) for _ in range(rng.randint(1, 32))))),
+                 (f + u'mimetype', u'text/plain', b'application/vnd.oasis.opendocument.chart')]
+        for p, mt, b in extra:
+            if p in have or p in names:
+                continue
+            man.insert(rng.randint(0, len(man)), (p, mt)); have.add(p)
+            if b is not None:
+                mem.insert(rng.randint(0, len(mem)), (p, b)); names.add(p)
+    return {'mimetype': spec['mimetype'], 'manifest': man, 'members': mem}
+
+
+MUTATORS += [('object-own-files', m_object_own_files)]
